@@ -13034,3 +13034,146 @@ func E11EmptyCloseKeepsPosition(c *core.Ctx, r *core.Report) {
 		r.Fail("E11.empty-close-keeps-position", key, c.Pos(zcase.Pos()), "after p.Close() the parser does not compare the builder's pen with its own current point (no test of p.Pos() that leads to a MoveTo): when Close removes a sub-path that was a MoveTo only, the next relative or absolute drawing command starts at the end of the previous sub-path (or at the origin) instead of at the closed sub-path's start — `M5 5zl1 1` becomes `M0 0L6 6`")
 	}
 }
+
+// E11AboutIsConjugation: a transformation about a pivot is the transformation between a translation and its inverse.
+func E11AboutIsConjugation(c *core.Ctx, r *core.Report) {
+	r.Rule("E11.about-is-conjugation", "the Matrix methods named …About transform about a pivot: Translate(p)·Op·Translate(−p), appended to the receiver. Each of them returns exactly that chain — receiver.Translate(a, b).Op(…).Translate(a′, b′) with a′ = −a and b′ = −b (a constant zero stays zero). A 'simplified' chain such as Shear(sx,sy).Translate(−sx·y, −sy·x) is right only when the cross terms vanish: chained methods compose to the right, so the offset is itself sheared, and the pivot moves whenever both shear factors are non-zero")
+	p := c.MustPkg("")
+	info := p.TypesInfo
+	n := 0
+	for _, fd := range core.AllFuncDecls(p) {
+		if fd.Recv == nil || fd.Body == nil || core.RecvName(fd) != "Matrix" || !strings.HasSuffix(fd.Name.Name, "About") {
+			continue
+		}
+		n++
+		key := "canvas.Matrix." + fd.Name.Name + "|translate to the pivot, transform, translate back"
+		recv := info.Defs[fd.Recv.List[0].Names[0]]
+		var ret ast.Expr
+		stmts := 0
+		for _, st := range fd.Body.List {
+			stmts++
+			if rs, ok := st.(*ast.ReturnStmt); ok && len(rs.Results) == 1 {
+				ret = rs.Results[0]
+			}
+		}
+		fail := func(why string) {
+			r.Fail("E11.about-is-conjugation", key, c.Pos(fd.Pos()), why+": about a pivot p the transformation is Translate(p)·Op·Translate(−p); any other arrangement agrees with it only for special arguments (one shear factor zero, a pivot at the origin)")
+		}
+		if ret == nil || stmts != 1 {
+			fail("the method is not a single return of the three-link chain")
+			continue
+		}
+		link := func(e ast.Expr) (string, []ast.Expr, ast.Expr, bool) {
+			call, ok := core.Unparen(e).(*ast.CallExpr)
+			if !ok {
+				return "", nil, nil, false
+			}
+			se, ok := call.Fun.(*ast.SelectorExpr)
+			if !ok {
+				return "", nil, nil, false
+			}
+			return se.Sel.Name, call.Args, se.X, true
+		}
+		chain := ret
+		// receiver.Mul(Identity.Translate(…).Op(…).Translate(…)) is the same product
+		if nm, args, x, ok := link(ret); ok && nm == "Mul" && len(args) == 1 {
+			if id, ok := core.Unparen(x).(*ast.Ident); ok && core.ObjOf(info, id) == recv {
+				chain = args[0]
+			}
+		}
+		n3, a3, x3, ok3 := link(chain)
+		n2, _, x2, ok2 := link(x3)
+		n1, a1, x1, ok1 := link(x2)
+		rid, okR := core.Unparen(x1).(*ast.Ident)
+		if okR && chain != ret && rid.Name == "Identity" {
+			recv = core.ObjOf(info, rid)
+		}
+		if !ok3 || !ok2 || !ok1 || !okR || core.ObjOf(info, rid) != recv {
+			fail(fmt.Sprintf("`%s` is not receiver.Translate(…).Op(…).Translate(…)", types.ExprString(ret)))
+			continue
+		}
+		if n1 != "Translate" || n3 != "Translate" || n2 == "Translate" || len(a1) != 2 || len(a3) != 2 {
+			fail(fmt.Sprintf("`%s` does not begin and end with a Translate of two arguments around the transformation", types.ExprString(ret)))
+			continue
+		}
+		isNeg := func(a, b ast.Expr) bool {
+			if v, ok := core.ConstVal(info, a).(constant.Value); ok && v != nil && numSign(v) == 0 {
+				w := core.ConstVal(info, b)
+				return w != nil && numSign(w) == 0
+			}
+			u, ok := core.Unparen(b).(*ast.UnaryExpr)
+			return ok && u.Op == token.SUB && types.ExprString(core.Unparen(u.X)) == types.ExprString(core.Unparen(a))
+		}
+		if isNeg(a1[0], a3[0]) && isNeg(a1[1], a3[1]) {
+			r.OK("E11.about-is-conjugation", key, c.Pos(ret.Pos()), types.ExprString(ret))
+		} else {
+			fail(fmt.Sprintf("`%s`: the last translation is not the inverse of the first", types.ExprString(ret)))
+		}
+	}
+	r.Count("E11.about-is-conjugation", n)
+	r.Floor("E11.about-is-conjugation", 5)
+}
+
+// E11CloseUsesOwnStart: Reverse closes a sub-path with that sub-path's own start, not the next one's.
+func E11CloseUsesOwnStart(c *core.Ctx, r *core.Report) {
+	r.Rule("E11.close-uses-own-start", "Path.Reverse walks the records backwards and keeps the start of the reversed sub-path it is building in a local; when it reaches the MoveTo of the original sub-path it emits the pending Close record with that start and only then moves on to the next sub-path. In the MoveTo case, every append of a Close record (`CloseCmd, v.X, v.Y, CloseCmd`) therefore comes before any assignment to v in that case. With the assignment first, the Close of a curved closed sub-path carries the start of the next reversed sub-path: a spurious segment to another sub-path's end, Reverse changes the length and is no involution")
+	p := c.MustPkg("")
+	info := p.TypesInfo
+	fd := core.MustFuncDecl(p, "Path.Reverse")
+	r.Func("canvas.Path.Reverse")
+	n := 0
+	for _, cc := range cmdSwitchClauses(p, fd) {
+		if !strings.Contains(core.CaseLabel(info, cc), "MoveToCmd") {
+			continue
+		}
+		// appends of a Close record and the variable they take the point from
+		type closeSite struct {
+			pos token.Pos
+			v   types.Object
+		}
+		var closes []closeSite
+		assigns := map[types.Object][]token.Pos{}
+		ast.Inspect(cc, func(m ast.Node) bool {
+			switch x := m.(type) {
+			case *ast.CallExpr:
+				if fn, ok := core.Unparen(x.Fun).(*ast.Ident); ok && fn.Name == "append" && len(x.Args) >= 5 {
+					isClose := func(e ast.Expr) bool {
+						id, ok := core.Unparen(e).(*ast.Ident)
+						return ok && id.Name == "CloseCmd"
+					}
+					if isClose(x.Args[1]) && isClose(x.Args[len(x.Args)-1]) {
+						if se, ok := core.Unparen(x.Args[2]).(*ast.SelectorExpr); ok {
+							if id, ok := core.Unparen(se.X).(*ast.Ident); ok {
+								closes = append(closes, closeSite{x.Pos(), core.ObjOf(info, id)})
+							}
+						}
+					}
+				}
+			case *ast.AssignStmt:
+				for _, l := range x.Lhs {
+					if id, ok := l.(*ast.Ident); ok {
+						assigns[core.ObjOf(info, id)] = append(assigns[core.ObjOf(info, id)], x.Pos())
+					}
+				}
+			}
+			return true
+		})
+		for _, cs := range closes {
+			n++
+			key := fmt.Sprintf("canvas.Path.Reverse|case MoveToCmd|Close record #%d written before its start variable is reassigned", n)
+			early := false
+			for _, ap := range assigns[cs.v] {
+				if ap < cs.pos {
+					early = true
+				}
+			}
+			if !early {
+				r.OK("E11.close-uses-own-start", key, c.Pos(cs.pos), cs.v.Name())
+			} else {
+				r.Fail("E11.close-uses-own-start", key, c.Pos(cs.pos), fmt.Sprintf("the Close record is written with `%s` after `%s` was already set for the next sub-path: the sub-path being finished is closed to the start of the following one (the end of the preceding original sub-path) — a spurious straight segment, so Reverse().Length() differs from Length() and Reverse().Reverse() is not the path", cs.v.Name(), cs.v.Name()))
+			}
+		}
+	}
+	r.Count("E11.close-uses-own-start", n)
+	r.Floor("E11.close-uses-own-start", 1)
+}
